@@ -27,8 +27,11 @@
 (***************************************************************************)
 EXTENDS Integers, Sequences, FiniteSets
 
-CONSTANTS NL, WE, WO, C, Word, Head2, SubCarry, Slack, BMode, PairMode,
+CONSTANTS NL, WE, WO, C, Word, Head2, SubCarry, Slack, AMode, BMode, PairMode,
           Variant     \* "code", or a deliberately wrong transcription used as a control: "nohalve" (r3 = r3 * 19)
+
+\* the factor 2 of odd x odd products is 2^(2 WE - (WE + WO)): the scheme needs limbs that differ by exactly one bit
+ASSUME NL % 2 = 0 /\ WE = WO + 1 /\ (2 ^ WE) > C
 
 Odd(i)  == i % 2 = 1                                  \* on 0-based limb indices
 Wd(i)   == IF Odd(i) THEN WO ELSE WE                  \* width of limb i (0-based)
@@ -147,7 +150,8 @@ BCorner(v)  == (\A k \in 1..NL : v[k] \in {0, MaskI(k - 1)}) \/ v = SlackV
 BSet == IF BMode = "all" THEN RSet ELSE IF BMode = "extreme" THEN {v \in RSet : BExtreme(v)} ELSE {v \in RSet : BCorner(v)}
 ZeroV == [k \in 1..NL |-> 0]
 Init == a = ZeroV /\ b = ZeroV /\ pc = "start"
-Next == \/ pc = "start" /\ a' \in RSet /\ b' = b /\ pc' = "a"
+ASet == IF AMode = "all" THEN RSet ELSE {v \in RSet : BExtreme(v)}
+Next == \/ pc = "start" /\ a' \in ASet /\ b' = b /\ pc' = "a"
         \/ pc = "a" /\ b' \in BSet /\ a' = a /\ pc' = "ab"
 
 IsCarried(t) == \A i \in 0..(NL - 1) : L(t, i) >= 0 /\ L(t, i) <= MaskI(i) + (IF i = 0 THEN C * 8 ELSE 0)
